@@ -451,30 +451,36 @@ def axesCached (w : World) (r : Req) : List Nat → Option PixelCache → Except
         | (.error e, pc') => (.error e, pc')
         | (.ok axs, pc') => (.ok (ax :: axs), pc')
 
+/-- `cache_id in ARRAY_CACHE and ARRAY_CACHE[cache_id]['hash'] == current_array_hash`. -/
+def arrayHit (c : Caches) (id : Nat) (r : Req) : Option Arr :=
+  match c.array id with
+  | some e => if e.matches r then some e.array else none
+  | none => none
+
+/-- `PIXEL_CACHE[cache_id]` after the reset of a pixel cache that does not match at the level of
+`(data, target_data)`. -/
+def pixelStart (c : Caches) (id : Nat) (r : Req) : Option PixelCache :=
+  match c.pixel id with
+  | some p => if p.data = r.data ∧ p.target = r.target then some p else none
+  | none => none
+
 /-- `compute_fixed_resolution_buffer` as coded: answer and new cache state. -/
 def frb (w : World) (c : Caches) (r : Req) : Except Err Arr × Caches :=
   if !boundsValid r.bounds then (.error .valueError, c) else
   match r.cacheId with
   | none => (frbUncached w r, c)
   | some id =>
-    match (match c.array id with
-           | some e => if e.matches r then some e.array else none
-           | none => none) with
+    match arrayHit c id r with
     | some a => (.ok a, c)
     | none =>
-      -- pixel cache that does not match at the level of (data, target_data) is dropped
-      let pc0 : Option PixelCache := match c.pixel id with
-        | some p => if p.data = r.data ∧ p.target = r.target then some p else none
-        | none => none
-      match axesCached w r (List.range (w.ndim r.data)) pc0 with
+      match axesCached w r (List.range (w.ndim r.data)) (pixelStart c id r) with
       | (.error e, pc) => (.error e, ⟨c.array, upd c.pixel id pc⟩)
       | (.ok axes, pc) =>
-        let c1 : Caches := ⟨c.array, upd c.pixel id pc⟩
         match finish w r axes with
-        | .error e => (.error e, c1)
+        | .error e => (.error e, ⟨c.array, upd c.pixel id pc⟩)
         | .ok a =>
-          (.ok a, ⟨upd c1.array id (some ⟨r.data, boundsForCache r.bounds (dimsAllOf axes), r.target,
-            r.what, r.broadcast, a⟩), c1.pixel⟩)
+          (.ok a, ⟨upd c.array id (some ⟨r.data, boundsForCache r.bounds (dimsAllOf axes), r.target,
+            r.what, r.broadcast, a⟩), upd c.pixel id pc⟩)
 
 /-! ### histories -/
 
